@@ -488,23 +488,26 @@ def check_accepted(ctx, st, via, desc, rec, declared_fields, what):
         try:
             r = build()
         except Exception as e:  # noqa: BLE001
-            key = "field-name-shadows-template-global" if _shadow_candidate(declared_fields) else None
+            key = "field-name-shadows-template-global" if _shadow_candidate(desc, declared_fields) else None
             ctx.violation(key, "%s: a record of an accepted definition cannot be constructed (%s)" % (what, how),
                           detail={"via": via, "exception": repr(e)[:300], "fields": declared_fields, "kwargs": kwargs})
             continue
         ctx.event("records_constructed")
-        _check_record(ctx, st, via, r, declared_fields, kwargs if how != "defaults" else {}, what + " (%s)" % how)
+        _check_record(ctx, st, via, desc, r, declared_fields, kwargs if how != "defaults" else {}, what + " (%s)" % how)
     if rec is not None:
-        _check_record(ctx, st, via, rec, declared_fields, None, what + " (record read)")
+        _check_record(ctx, st, via, desc, rec, declared_fields, None, what + " (record read)")
 
 
-def _shadow_candidate(declared_fields):
-    """Mechanism classifier: a declared field whose name is a global of the class template, on the non-keyword code path."""
+def _shadow_candidate(desc, declared_fields):
+    """Mechanism classifier: a declared field (non-keyword code path: fields are parameters of __init__) or the generated
+    class itself is called like the template global that holds the record version."""
     names = [n for _, n in declared_fields]
-    return "RECORD_VERSION" in names and not any(keyword.iskeyword(n) for n in names)
+    if "RECORD_VERSION" in names and not any(keyword.iskeyword(n) for n in names):
+        return True
+    return str(getattr(desc, "name", "")).replace("/", "_") == "RECORD_VERSION"
 
 
-def _check_record(ctx, st, via, r, declared_fields, given, what):
+def _check_record(ctx, st, via, desc, r, declared_fields, given, what):
     try:
         observe.assert_typed(r, what)
     except observe.Untyped as e:
@@ -515,7 +518,7 @@ def _check_record(ctx, st, via, r, declared_fields, given, what):
         return
     ver = observe.oval(getattr(r, "_version", None))
     if ver != st["control_version"]:
-        key = "field-name-shadows-template-global" if _shadow_candidate(declared_fields) else None
+        key = "field-name-shadows-template-global" if _shadow_candidate(desc, declared_fields) else None
         ctx.violation(key, "%s: _version of a fresh record is not the control version" % what,
                       detail={"via": via, "_version": ver, "control": st["control_version"], "fields": declared_fields})
     if given:
